@@ -51,7 +51,8 @@ AddLine == /\ phase = "lines" /\ Len(lines) < MaxLines
            /\ UNCHANGED <<tool, spell, act, phase>>
 Finish == /\ phase = "lines" /\ lines # <<>>
           \* (outer: the search root is the directory above the git repository - the repository is discovered on the way down)
-          /\ spell' \in {"dot", "rel", "abs", "sub", "subdot", "gen", "gendot"} \cup (IF tool = "git" THEN {"outer"} ELSE {})
+          \* (meta: the directory that holds the ignore file has a name made of characters that are special in patterns)
+          /\ spell' \in {"dot", "rel", "abs", "sub", "subdot", "gen", "gendot", "meta", "metaabs"} \cup (IF tool = "git" THEN {"outer"} ELSE {})
           /\ act' \in {"option", "config", "override"}
           \* the spelling and the activation are varied one at a time
           /\ (spell' = "dot" \/ act' = "option")
@@ -65,14 +66,14 @@ Body(i) == IF i > Len(lines) THEN "" ELSE Forms[lines[i]].text \o "\n" \o Body(i
 Content == (IF tool = "hgglob" THEN "syntax: glob\n" ELSE "") \o Body(1)
 Fl(i, p, nm) == [id |-> i, parent |-> p, kind |-> "file", name |-> nm, content |-> "x"]
 Dr(i, p, nm) == [id |-> i, parent |-> p, kind |-> "dir", name |-> nm, content |-> ""]
-W == [gitinit |-> (tool = "git"),
+W == [gitinit |-> (tool = "git"), rootname |-> (IF spell \in {"meta", "metaabs"} THEN "c++ (1).[x]" ELSE "r"),
       nodes |-> << Fl(1, 0, "a.txt"), Fl(2, 0, "b.log"), Fl(3, 0, "keep.log"), Dr(4, 0, "src"), Fl(5, 4, "y.rs"), Fl(6, 4, "z.log"), Dr(7, 4, "gen"),
                    Fl(8, 7, "o.log"), Dr(9, 0, "build"), Fl(10, 9, "out.bin"), Fl(11, 0, "ab.logx"), Fl(12, 0, "o.log"), Fl(13, 4, "b.log"),
                    [Fl(14, 0, FileName) EXCEPT !.content = Content], Fl(15, 0, "k!p.log") >>
                 \o (IF tool \in {"hgglob", "hgrx"} THEN << Dr(16, 0, ".hg") >> ELSE <<>>)]
 
 OptWord == CASE tool = "git" -> "gitignore" [] tool = "docker" -> "dockerignore" [] OTHER -> "hgignore"
-RootText == CASE spell = "dot" -> "'.'" [] spell = "rel" -> "'r'" [] spell = "abs" -> "'@ROOT@'" [] spell = "sub" -> "'src'" [] spell = "subdot" -> "'.'"
+RootText == CASE spell = "dot" -> "'.'" [] spell = "meta" -> "'.'" [] spell = "metaabs" -> "'@ROOT@'" [] spell = "rel" -> "'r'" [] spell = "abs" -> "'@ROOT@'" [] spell = "sub" -> "'src'" [] spell = "subdot" -> "'.'"
               [] spell = "gen" -> "'src/gen'" [] spell = "gendot" -> "'.'" [] spell = "outer" -> "'.'"
 OptText == CASE act = "option" -> " " \o OptWord [] act = "config" -> "" [] act = "override" -> " no" \o OptWord
 Query == "select inode, path from " \o RootText \o OptText
